@@ -47,6 +47,13 @@ def main():
         def __iter__(self):
             raise self.exc
 
+    class RaisingLen(RaisingIterable):
+        def __len__(self):
+            raise self.exc
+
+        def __iter__(self):
+            return iter(())
+
     def gen(tag, c):
         for i in range(c["n"]):
             if c["kind"] == "iter" and i == c["iter_fail_at"]:
@@ -60,7 +67,7 @@ def main():
             try:
                 with warnings.catch_warnings():
                     warnings.simplefilter("ignore")
-                    o["out"] = list(p(RaisingIterable(Boom("iter", tag, -1)) if c["kind"] == "iterinit" else gen(tag, c)))
+                    o["out"] = list(p((RaisingLen if c.get("where") == "__len__" else RaisingIterable)(Boom("iter", tag, -1)) if c["kind"] == "iterinit" else gen(tag, c)))
             except BaseException as e:  # noqa
                 o["exc_type"] = type(e).__name__
                 o["exc_args"] = list(e.args) if type(e) in EXC.values() else [str(e)[:200]]
